@@ -277,6 +277,7 @@ type DamageJob struct {
 // DamageSentinel is a fixed damaged-entry case (sentinels/C20/damage.json).
 type DamageSentinel struct {
 	Name         string
+	Payload      PayloadSpec
 	Op           string // "flip" | "trunc"
 	Offset, Mask int
 	FileSHA      string // of the undamaged entry the offsets refer to
@@ -475,6 +476,9 @@ func ChildDamage(args []string) int {
 	for _, sn := range job.Sentinels {
 		if job.Shard != 0 {
 			break
+		}
+		if sn.Payload != job.Payload {
+			continue
 		}
 		if sn.FileSHA != out.FileSHA || sn.Offset >= len(orig) {
 			out.Inconclusive = append(out.Inconclusive, "sentinel "+sn.Name+": entry bytes drifted")
